@@ -307,6 +307,24 @@ def structure_aware(rng, spec):
                              ("blk-mm-65536", rq.rlp_encode([bytes(65500)] + [b"\x22" * 3] * 16 +
                                                             [bytes(80), b"", bytes(100)]).hex()),
                              ("blk-trailing", b[cmd]["blocks"][0] + "00"),
+                             ] + [
+                             # the compressed coinbase transaction (last field) starts with
+                             # an 8-byte count of bytes already hashed, then a 32-byte
+                             # midstate: counts at the limits of the hash's length field,
+                             # not a multiple of 64, a midstate cut short
+                             ("blk-cbtx-" + lab2, rq.rlp_encode(
+                                 [bytes(32)] * 6 + [bytes(256)] + [b"\x01"] * 9 +
+                                 [bytes(80), b"", cb]).hex())
+                             for lab2, cb in [
+                                 ("count-2^61", (2**61).to_bytes(8, "big") + bytes(32) + b"t" * 40),
+                                 ("count-2^61-64", (2**61 - 64).to_bytes(8, "big") + bytes(32) +
+                                  b"t" * 80),
+                                 ("count-max", b"\xff" * 8 + bytes(32) + b"t" * 10),
+                                 ("count-odd", (65).to_bytes(8, "big") + bytes(32) + b"t" * 10),
+                                 ("count-2^63", (2**63).to_bytes(8, "big") + bytes(32) + b"t"),
+                                 ("midstate-short", (64).to_bytes(8, "big") + bytes(20)),
+                                 ("only-count", (64).to_bytes(8, "big")),
+                                 ("empty", b"")]] + [
                              ("blk-lying-header", "f9ffff" + "00" * 20)]:
                 r = copy.deepcopy(b[cmd])
                 r["blocks"][0] = blk
